@@ -29,8 +29,11 @@ EXTENDS Naturals, Sequences, FiniteSets, TLC
 CONSTANTS MaxRekey,   \* re-exchanges explored
           Fields,     \* what the attacker may alter: subset of AllFields
           Gex,        \* TRUE: group exchange (the server chooses the group, it is hashed)
+          Methods,    \* hash families of the kex methods an exchange may negotiate (digest sizes differ):
+                      \* every exchange, the first or a re-exchange, picks one (C05 decides which)
           Mut         \* "none" | seeded design error (sensitivity): "skip_verify", "sid_overwrite",
-                      \* "verify_before_hash_binding", "ignore_sig_alg", "verify_only_new_key"
+                      \* "verify_before_hash_binding", "ignore_sig_alg", "verify_only_new_key",
+                      \* "sid_by_digest_size"
 
 AllFields == {"hostkey", "pub", "sig", "sigalg", "group"}
 HostAlg   == "alg"                      \* the negotiated host-key signature algorithm (C05 decides it)
@@ -45,16 +48,18 @@ DH(x, pub, G)     == IF pub[3] = G THEN <<"dh", {x, pub[2]}, G>>
 Pk(k)             == <<"pk", k>>
 Sig(k, alg, m)    == <<"sig", k, alg, m>>
 Verify(pk, alg, s, m) == s = Sig(pk[2], alg, m)
-Hash(t)           == <<"hash", t>>
+Hash(m, t)        == <<"hash", m, t>>                  \* digest of t with the hash of method family m
 \* the exchange hash: identification strings and KEXINIT payloads are constants of a session ("V", "I"),
 \* then K_S, the group (group exchange only), both public values, K
-ExHash(ks, grp, e, f, k) == Hash(<<"V_C", "V_S", "I_C", "I_S", ks, IF Gex THEN grp ELSE "fixed", e, f, k>>)
+ExHash(m, ks, grp, e, f, k) == Hash(m, <<"V_C", "V_S", "I_C", "I_S", ks, IF Gex THEN grp ELSE "fixed", e, f, k>>)
 
 HonestGroup == "G"
 ServerKey   == "hkS"                    \* the server's host key (private half known to the server only)
 AttackerKey == "hkA"                    \* another valid key pair, owned by the attacker
 
 VARIABLES n,          \* index of the current exchange (0 = first)
+          meth,       \* hash family of the kex method negotiated for the current exchange
+          meths,      \* ghost: the families of all exchanges so far
           cst,        \* client: "idle" | "init_sent" | "kh_set" | "done" | "aborted"
           sst,        \* server: "idle" | "replied"
           ce,         \* client's e for this exchange
@@ -66,9 +71,9 @@ VARIABLES n,          \* index of the current exchange (0 = first)
           altered,    \* fields altered in the current exchange
           attacked,   \* the attacker has used its one edit
           first       \* ghost: <<H of the client's first exchange, H of the server's first exchange>>
-vars == <<n, cst, sst, ce, cgrp, net, cK, cH, cSid, cShown, cSig, cHostKey, sK, sH, sSid, altered, attacked, first>>
+vars == <<n, meth, meths, cst, sst, ce, cgrp, net, cK, cH, cSid, cShown, cSig, cHostKey, sK, sH, sSid, altered, attacked, first>>
 
-Init == /\ n = 0 /\ cst = "idle" /\ sst = "idle" /\ ce = None /\ cgrp = HonestGroup /\ net = NoNet
+Init == /\ n = 0 /\ meth = "-" /\ meths = <<>> /\ cst = "idle" /\ sst = "idle" /\ ce = None /\ cgrp = HonestGroup /\ net = NoNet
         /\ cK = None /\ cH = None /\ cSid = None /\ cShown = None /\ cSig = None /\ cHostKey = None
         /\ sK = None /\ sH = None /\ sSid = None
         /\ altered = {} /\ attacked = FALSE /\ first = <<None, None>>
@@ -82,21 +87,26 @@ ClientStartKex ==
          /\ ce' = Pub(Sec("c", n), g)
          /\ altered' = IF g # HonestGroup THEN {"group"} ELSE {}
          /\ attacked' = (attacked \/ g # HonestGroup)
+    /\ \E m \in Methods : meth' = m /\ meths' = Append(meths, m)
     /\ cst' = "init_sent"
     /\ UNCHANGED <<n, sst, net, cK, cH, cSid, cShown, cSig, cHostKey, sK, sH, sSid, first>>
 
-SetSid(old, h) == IF old = None \/ Mut = "sid_overwrite" THEN h ELSE old    \* Transport._set_K_H
+\* Transport._set_K_H: latched by the first exchange, whatever a later H looks like (another digest size included)
+SetSid(old, h) == IF \/ old = None
+                     \/ Mut = "sid_overwrite"
+                     \/ (Mut = "sid_by_digest_size" /\ old # None /\ old[2] # h[2])
+                  THEN h ELSE old
 
 ServerReply ==
     /\ sst = "idle" /\ cst = "init_sent"
     /\ LET f == Pub(Sec("s", n), HonestGroup)
            k == DH(Sec("s", n), ce, HonestGroup)
-           h == ExHash(Pk(ServerKey), HonestGroup, ce, f, k)
+           h == ExHash(meth, Pk(ServerKey), HonestGroup, ce, f, k)
        IN  /\ sK' = k /\ sH' = h /\ sSid' = SetSid(sSid, h)
            /\ first' = IF n = 0 THEN <<first[1], h>> ELSE first
            /\ net' = [ks |-> Pk(ServerKey), f |-> f, sig |-> Sig(ServerKey, HostAlg, h), alg |-> HostAlg]
     /\ sst' = "replied"
-    /\ UNCHANGED <<n, cst, ce, cgrp, cK, cH, cSid, cShown, cSig, cHostKey, altered, attacked>>
+    /\ UNCHANGED <<n, meth, meths, cst, ce, cgrp, cK, cH, cSid, cShown, cSig, cHostKey, altered, attacked>>
 
 (* exactly one field gets a different VALUE (not merely another encoding) *)
 Alter(fld) ==
@@ -106,17 +116,17 @@ Alter(fld) ==
                 [] fld = "sig"     -> [net EXCEPT !.sig = Sig("nobody", HostAlg, sH)]
                 [] fld = "sigalg"  -> [net EXCEPT !.alg = "alg2"]      \* the blob now names another algorithm
     /\ altered' = altered \cup {fld} /\ attacked' = TRUE
-    /\ UNCHANGED <<n, cst, sst, ce, cgrp, cK, cH, cSid, cShown, cSig, cHostKey, sK, sH, sSid, first>>
+    /\ UNCHANGED <<n, meth, meths, cst, sst, ce, cgrp, cK, cH, cSid, cShown, cSig, cHostKey, sK, sH, sSid, first>>
 
 ClientSetKH ==
     /\ cst = "init_sent" /\ net # NoNet
     /\ LET k == DH(Sec("c", n), net.f, cgrp)
-           h == ExHash(net.ks, cgrp, ce, net.f, k)
+           h == ExHash(meth, net.ks, cgrp, ce, net.f, k)
        IN  /\ cK' = k /\ cH' = h /\ cSid' = SetSid(cSid, h)
            /\ first' = IF n = 0 THEN <<h, first[2]>> ELSE first
     /\ cShown' = net.ks /\ cSig' = net.sig
     /\ cst' = "kh_set"
-    /\ UNCHANGED <<n, sst, ce, cgrp, net, cHostKey, sK, sH, sSid, altered, attacked>>
+    /\ UNCHANGED <<n, meth, meths, sst, ce, cgrp, net, cHostKey, sK, sH, sSid, altered, attacked>>
 
 (* the relabelled signature is a signature made with HostAlg whose blob claims net.alg; verification under  *)
 (* the negotiated algorithm must fail for it                                                              *)
@@ -132,12 +142,12 @@ ClientVerifyKey ==
     /\ cst' = IF Passes THEN "done" ELSE "aborted"
     /\ cHostKey' = IF Passes THEN cShown ELSE cHostKey
     /\ net' = NoNet
-    /\ UNCHANGED <<n, sst, ce, cgrp, cK, cH, cSid, cShown, cSig, sK, sH, sSid, altered, attacked, first>>
+    /\ UNCHANGED <<n, meth, meths, sst, ce, cgrp, cK, cH, cSid, cShown, cSig, sK, sH, sSid, altered, attacked, first>>
 
 Rekey ==
     /\ cst = "done" /\ sst = "replied" /\ n < MaxRekey
     /\ n' = n + 1 /\ cst' = "idle" /\ sst' = "idle" /\ altered' = {} /\ cgrp' = HonestGroup
-    /\ UNCHANGED <<ce, net, cK, cH, cSid, cShown, cSig, cHostKey, sK, sH, sSid, attacked, first>>
+    /\ UNCHANGED <<meth, meths, ce, net, cK, cH, cSid, cShown, cSig, cHostKey, sK, sH, sSid, attacked, first>>
 
 Next == ClientStartKex \/ ServerReply \/ (\E f \in Fields : Alter(f)) \/ ClientSetKH \/ ClientVerifyKey \/ Rekey
 Spec == Init /\ [][Next]_vars
@@ -160,5 +170,5 @@ AlteredAborts    == AbortP(altered # {}, cst = "done")
 
 (* ---- spec -> code: one CASE per (altered field, number of re-exchanges) ------- *)
 Emit == cst \in {"done", "aborted"} =>
-            PrintT(<<"CASE", IF altered = {} THEN "none" ELSE CHOOSE f \in altered : TRUE, n, cst>>)
+            PrintT(<<"CASE", IF altered = {} THEN "none" ELSE CHOOSE f \in altered : TRUE, n, cst, meths>>)
 =============================================================================
